@@ -67,4 +67,11 @@ static rfc_pkt rfc_parse(const unsigned char *d, int len, int self_delim){
   for(i=0;i<M;i++){ r.frame_off[i]=pos; pos+=r.size[i]; }
   r.pad_total=P; r.count=M; r.valid=1; return r;
 }
+/* RFC 6716 Table 2: audio bandwidth of a configuration number (OPUS_BANDWIDTH_* = 1101..1105) */
+static int rfc_bandwidth(int toc){
+  int cfg=toc>>3;
+  if(cfg<4) return 1101; if(cfg<8) return 1102; if(cfg<12) return 1103;   /* SILK NB, MB, WB */
+  if(cfg<14) return 1104; if(cfg<16) return 1105;                         /* hybrid SWB, FB */
+  if(cfg<20) return 1101; if(cfg<24) return 1103; if(cfg<28) return 1104; return 1105; /* CELT NB, WB, SWB, FB */
+}
 #endif
